@@ -14,9 +14,8 @@ for f in $(git diff --name-only --diff-filter=U); do
     evidence/*|seeded/*/detection.json|MANIFEST.json|neutral/*/detection.json) git checkout --theirs -- $f; git add $f;;
     harness/manifest_data.py)
       git show HEAD:$f > /tmp/md_ours.py; git show $base:$f > /tmp/md_base.py; git show FETCH_HEAD:$f > /tmp/md_theirs.py
-      diff /tmp/md_base.py /tmp/md_theirs.py | grep '^>' | sed 's/^> //' > /tmp/md_added.py
-      cat /tmp/md_ours.py /tmp/md_added.py > $f
-      python3 -c "import ast;ast.parse(open('$f').read())" && git add $f || echo "manifest_data.py: append merge does not parse";;
+      python3 harness/merge_manifest_data.py /tmp/md_base.py /tmp/md_ours.py /tmp/md_theirs.py $f
+      python3 -c "import ast;ast.parse(open('$f').read())" && git add $f || echo "manifest_data.py: merge does not parse";;
     DESIGN.md) python3 harness/resolve_both.py DESIGN.md; git add DESIGN.md;;
     *) echo "UNRESOLVED CONFLICT: $f";;
   esac
